@@ -119,7 +119,7 @@ def replay(ctx, obj):
 
 
 def run(ctx):
-    explore(ctx, ctx.subrng("laws"), ctx.budget(120, 2500))
+    explore(ctx, ctx.subrng("laws"), ctx.budget(300, 3000))
     if not ctx.violations:
         try:
             from .. import dense
